@@ -1,8 +1,18 @@
 (* C05 — A plate's DBAL score depends on that plate alone and equals the direct estimator.
-   Statements only; every proof is `exact <lemma from Proofs/>`.  All theorems hold for every
-   oracle [orc] (ln = orc 0, exp = orc 1), every number of posterior samples T > 0 (the code
-   needs T >= 3), every plate list (empty, one plate, size-0/size-1 plates included), all means,
-   all variances (zero and negative included), all matrices, every distance_factor.
+   Statements only; every proof is `exact <lemma from Proofs/>`.  All theorems hold OF THE MODEL (Model/Dbal.v) for every
+   oracle [orc] (ln = orc 0, exp = orc 1), every number of posterior samples T > 0 (the code needs T >= 3), every plate list
+   (empty, one plate, size-0/size-1 plates included), all means, all variances, all matrices, every distance_factor.
+   DOMAIN (gap G5.6) - read this before reading "all" as a claim about the code.  The model is total over exact rationals and
+   agrees with numpy only where numpy computes with finite numbers:
+     * variances > 0.  Then every alpha is > 0 (C05_domain_alpha_positive, padded cells included).  For alpha = 0 the model's
+       1 / alpha is Qc's 0 while numpy gives inf / NaN; zero or negative variances can make alpha 0 or negative.
+     * matrix entries >= 0.  Then every summed triple distance is >= 0 (C05_domain_distance_term): np.log sees 0 (-inf, modelled
+       as None) or a positive number.  For a negative sum numpy gives NaN, the model the oracle's value.
+     * distance_factor > 0.  The model reads df * -inf as -inf for every df; numpy gives NaN for df = 0 and +inf for df < 0.
+     * no NaN / inf among means, variances, distances; NaN occurs only as the padding value of the variance array.
+   These are the property's own quantifier (positive variances, symmetric non-negative matrices; distance_factor is 1 in the
+   scorer); the differential run generates only such inputs.  Outside them the theorems are statements about the model alone.
+   Floating-point rounding is not in the model (it computes the real-number value; the harness compares to 1e-9).
    plate_wf T pl : means and variances of pl are both T x n_exp arrays.
    triple_valid T t : the three sample indices of t are < T (what the unranking produces). *)
 From Coq Require Import ZArith List QArith Qcanon Permutation Lia.
@@ -149,6 +159,81 @@ Theorem C05_scorer_checked_ok : forall orc T D, (3 <= T)%nat -> rect T T D ->
   scorer_checked orc mc plates D draws_idx = Ok (scorer orc mc plates D draws_ts).
 Proof. exact scorer_checked_ok. Qed.
 Print Assumptions C05_scorer_checked_ok.
+
+(* ==== composition (gaps G5.3 / G15.1): the premise "all triples are enumerated" is DISCHARGED, not assumed ====
+   What the source links provide about a call is a recorded rng.choice answer d obeying numpy's contract
+   (choice_ok n k d: k distinct values of range(n)).  When the budget covers C(T,3) the call is
+   rng.choice(C(T,3), size=C(T,3), replace=False); property C15's bijection then makes the unranked triples a complete
+   enumeration, and C05_alone / C05_vectorised_eq_direct apply.  comb3 T = C(T,3) (C15_comb3_is_binomial). *)
+From Batchie Require Import Model.Binom Proofs.C15UseSite Proofs.C05Compose Proofs.C05Domain.
+
+(* a full draw unranks WITHOUT ERROR to every triple a > b > c below T exactly once, all of them valid *)
+Theorem C05_full_draw_complete : forall (T : nat) (d : list Z),
+  (3 <= T)%nat -> choice_ok (comb3 (Z.of_nat T)) (comb3 (Z.of_nat T)) d = true ->
+  exists ts, triples_of_draw T d = Ok ts /\ complete T ts /\ Forall (triple_valid T) ts.
+Proof. exact full_draw_complete. Qed.
+Print Assumptions C05_full_draw_complete.
+
+(* any contract-obeying draw (sub-sampled budgets included) unranks without error to k distinct valid triples: the
+   hypothesis `triples_of_draw T idxs = Ok ts` of C05_checked_ok / C05_scorer_checked_ok always holds *)
+Theorem C05_draw_valid : forall (T : nat) (k : Z) (d : list Z),
+  choice_ok (comb3 (Z.of_nat T)) k d = true ->
+  exists ts, triples_of_draw T d = Ok ts /\ Z.of_nat (length ts) = k /\ NoDup ts /\ Forall (triple_valid T) ts.
+Proof. exact sub_draw_valid. Qed.
+Print Assumptions C05_draw_valid.
+
+(* END TO END on the translated GaussianDBALScorer.score: T >= 3 samples, a square T x T matrix, any max_chunk >= 1, any dict
+   of well-formed plates, every recorded answer a full draw (budget >= C(T,3)): the translation returns - no error - each key
+   with the direct estimator of ITS OWN plate on one reference enumeration ts0 (any complete one).  The right-hand side
+   mentions neither max_chunk, nor the other plates, nor the draws: that is the independence the property states *)
+Theorem C05_source_score_full_enumeration : forall orc (T mc : nat) (plates : list (Z * pyplate)) (D : arr2) (draws : list (list Z)) ts0,
+  (3 <= T)%nat -> rect T T D -> (0 < mc)%nat ->
+  NoDup (map fst plates) -> sel_uniform plates ->
+  Forall (fun kp => plate_wf T (snd (snd kp))) plates ->
+  (ceil_div (length plates) mc <= length draws)%nat ->
+  Forall (fun d => choice_ok (comb3 (Z.of_nat T)) (comb3 (Z.of_nat T)) d = true) draws ->
+  complete T ts0 ->
+  src_score orc (Z.of_nat mc) plates D draws
+  = Ok (map (fun kp => (fst kp, direct orc D 1%Qc ts0 (snd (snd kp)))) plates).
+Proof. exact src_score_full_enumeration. Qed.
+Print Assumptions C05_source_score_full_enumeration.
+
+(* the same for the translated heteroscedastic wrapper ... *)
+Theorem C05_source_hetero_full_enumeration : forall orc (T : nat) (plates : list plate) (D : arr2) df idxs ts0,
+  (3 <= T)%nat -> rect T T D -> plates <> [] -> Forall (plate_wf T) plates ->
+  choice_ok (comb3 (Z.of_nat T)) (comb3 (Z.of_nat T)) idxs = true -> complete T ts0 ->
+  src_hetero orc (map fst plates) (map snd plates) D df idxs = Ok (map (direct orc D df ts0) plates).
+Proof. exact src_hetero_full_enumeration. Qed.
+Print Assumptions C05_source_hetero_full_enumeration.
+
+(* ... and for the vectorised kernel through its TRANSLATED shape checks and its TRANSLATED index-to-triple run with a budget
+   max_combos >= C(T,3) (then tensor expressions `kernel`, not translated) on the padded arrays of any plate list *)
+Theorem C05_source_kernel_full_enumeration : forall orc (T : nat) (plates : list plate) (D : arr2) df (mc : Z) (d : list Z) rest ts0,
+  (3 <= T)%nat -> rect T T D -> plates <> [] -> Forall (plate_wf T) plates ->
+  (comb3 (Z.of_nat T) <= mc)%Z ->
+  choice_ok (comb3 (Z.of_nat T)) (comb3 (Z.of_nat T)) d = true -> complete T ts0 ->
+  (dor _ <- src_kernel_checks (pad_means (map fst plates)) (pad_vars (map snd plates)) D;
+   dor r <- src_kernel_triples (pad_means (map fst plates)) mc (d :: rest);
+   Ok (kernel orc (pad_means (map fst plates)) (pad_vars (map snd plates)) D df (nat_triples (fst r))))
+  = Ok (map (direct orc D df ts0) plates).
+Proof. exact src_kernel_full_enumeration. Qed.
+Print Assumptions C05_source_kernel_full_enumeration.
+
+(* ==== the domain on which the model's totalisations are never reached (gap G5.6; see the header) ==== *)
+(* positive variances: alpha > 0 on every cell the kernel computes with (NaN-padded cells carry variance 1) *)
+Theorem C05_domain_alpha_positive : forall (vars : arr3n) p t e, vars_pos vars -> (0 < k_alpha vars p t e)%Qc.
+Proof. exact k_alpha_pos. Qed.
+Print Assumptions C05_domain_alpha_positive.
+Theorem C05_domain_alpha_positive_direct : forall v1 v2 v3 : Qc,
+  (0 < v1 -> 0 < v2 -> 0 < v3 -> 0 < v1 * v2 + v2 * v3 + v1 * v3)%Qc.
+Proof. exact triple_alpha_pos. Qed.
+Print Assumptions C05_domain_alpha_positive_direct.
+(* non-negative matrix: the log-distance term is -inf exactly at summed distance 0, else df * ln of a POSITIVE number *)
+Theorem C05_domain_distance_term : forall orc (D : arr2) df t, matrix_nonneg D ->
+  (k_dsum D t = 0%Qc /\ k_ltd orc D df t = None) \/
+  ((0 < k_dsum D t)%Qc /\ k_ltd orc D df t = Some (df * ln orc (k_dsum D t))%Qc).
+Proof. exact k_ltd_domain. Qed.
+Print Assumptions C05_domain_distance_term.
 
 (* ---- non-vacuity: concrete instances, oracle = simple rational functions ---- *)
 Definition ex_orc : oracle := fun code x => if Z.eqb code 0 then (x - 1)%Qc else (1 + x * Q2Qc (1 # 2))%Qc.
@@ -351,3 +436,16 @@ Theorem C05_model_is_source_init : forall max_chunk max_triples : Z, SrcInits.sr
 Proof. exact C05Source_Init_DBALScorer.src_dbal_scorer_init_stores. Qed.
 Print Assumptions C05_model_is_source_init.
 
+(* non-vacuity of the composition: T = 4, the recorded answers of C05_ex_source_hyps ARE full draws (C(4,3) = 4 <= 5000),
+   ex_ts is a complete enumeration, the plates are well-formed, the matrix is 4 x 4 *)
+Example C05_ex_full_enumeration_hyps :
+  Forall (fun d => choice_ok (comb3 4) (comb3 4) d = true) [[3; 0; 1; 2]; [2; 1; 0; 3]]%Z
+  /\ rect 4 4 ex_D /\ Forall (fun kp : Z * pyplate => plate_wf 4 (snd (snd kp))) ex_py.
+Proof.
+  split; [repeat constructor|]. split; [repeat constructor|].
+  repeat constructor; [exists 1%nat|exists 2%nat|exists 1%nat]; repeat constructor.
+Qed.
+Example C05_ex_full_draw : exists ts, triples_of_draw 4 [3; 0; 1; 2]%Z = Ok ts /\ complete 4 ts.
+Proof.
+  destruct (C05_full_draw_complete 4 [3; 0; 1; 2]%Z ltac:(lia) eq_refl) as (ts & E & Hc & _). now exists ts.
+Qed.
